@@ -554,7 +554,11 @@ fn all_redirs() -> Vec<Redir> {
 // ------------------------------------------------------------------ descriptors the shell opens for its own use
 
 /// commands that make the shell open descriptors of its own (not redirections)
-const INTERNAL_USERS: [(&str, &str); 11] = [
+const INTERNAL_USERS: [(&str, &str); 15] = [
+    ("dot script that ends the shell with exit", "command . /tmp/dotx"),
+    ("dot script that ends the shell with an expansion error", "command . /tmp/dote"),
+    ("dot script that ends the shell with a syntax error", "command . /tmp/dots"),
+    ("nested dot script that ends the shell with exit", "command . /tmp/dotxx"),
     ("three-stage pipeline", "fds in | fds in2 | fds in3"),
     ("four-stage pipeline in a brace group", "{ fds in | fds in2 | fds in3 | fds in4; }"),
     ("dot script", "command . /tmp/dot1"),
@@ -574,6 +578,10 @@ fn internal_files() -> Vec<(String, FileSpec)> {
         ("/tmp/dot2".into(), FileSpec::Regular(b"command . /tmp/dot1\nfds in2\n".to_vec())),
         ("/tmp/dot3".into(), FileSpec::Regular(b"command . /tmp/dot2\nfds in3\n".to_vec())),
         ("/tmp/dot4".into(), FileSpec::Regular(b"eval 'fds in' </tmp/in\n".to_vec())),
+        ("/tmp/dotx".into(), FileSpec::Regular(b"fds in\nexit 3\nfds never\n".to_vec())),
+        ("/tmp/dote".into(), FileSpec::Regular(b"fds in\n: ${uu?}\nfds never\n".to_vec())),
+        ("/tmp/dots".into(), FileSpec::Regular(b"fds in\nfi\nfds never\n".to_vec())),
+        ("/tmp/dotxx".into(), FileSpec::Regular(b"command . /tmp/dotx\nfds never\n".to_vec())),
     ]
 }
 
@@ -596,6 +604,26 @@ fn check_internal(out: &vsh::VOut, what: &str, limited: bool) -> Result<(), (Str
                 return Err((format!("internal:low-descriptor:{what}"), format!("at `fds {tag}` descriptor {fd} is open although the script never opened it\ntable: {t:?}")));
             }
         }
+    }
+    if what.contains("ends the shell") {
+        // the EXIT trap must see exactly the descriptors from before (the script's own descriptor,
+        // at 10 or above, included: the dot built-in closes it however the script ends)
+        let Some((_, at_exit)) = tables.iter().find(|(t, _)| t == "atexit") else {
+            if limited {
+                return Err(("aborted".into(), String::new()));
+            }
+            return Err((format!("internal:no-exit-snapshot:{what}"), format!("stderr: {}", out.err())));
+        };
+        // (under a lowered limit the script file may not even open: then the shell goes on)
+        if !limited && tables.iter().any(|(t, _)| t == "never") {
+            return Err((format!("internal:ran-past-the-end:{what}"), "commands after the end of the dot script ran".into()));
+        }
+        let b: Vec<i32> = before.keys().copied().collect();
+        let a: Vec<i32> = at_exit.keys().copied().collect();
+        if a != b {
+            return Err((format!("internal:leak-at-exit:{what}"), format!("open descriptors before {b:?}, when the EXIT trap runs {a:?}")));
+        }
+        return Ok(());
     }
     let Some((_, after)) = tables.iter().find(|(t, _)| t == "after") else {
         // under a lowered limit a failed expansion or pipeline is a shell error that legitimately
@@ -916,4 +944,4 @@ pub fn run(ctx: &Ctx) {
     ctx.assume("under a lowered descriptor limit only the after-invariants are decided (table restored, nothing >= 10 left open); which allocation fails first is the kernel's business");
 }
 
-pub const RULE: &str = "scenario = (command kind in {regular built-in, special built-in via eval, function, brace group, subshell, if, external, not found, empty command, exec, echo writing through fd 1, special built-in in a subshell}) x redirection list x noclobber; single redirections: 6 target descriptors (open, closed) x every operator x operands {existing, missing, directory, missing parent, open/closed descriptor, close, here-document}; all lists of length 1, every 7th (quick) / every list of length 2, random lists of length 3; fault enumeration: each single redirection x kind x every RLIMIT_NOFILE from 5 to 20 (every 9th in quick) + random lists under random limits. Compared with the fd-table model: table during the command (open-file-description identity, access mode, inode, internal descriptors >= 10 with close-on-exec), table after == before (exec: == modelled), no descriptor >= 10 left open, file contents and creation. Descriptors of the shell's own: 11 commands that make the shell open descriptors for itself (dot scripts up to three levels deep, missing dot script, command substitutions, here-document, pipeline) x {no limit, every RLIMIT_NOFILE 5..24}, and the shell reading a script file (as operand, through `.`) with 0-7 of the descriptors 3-9 already open: every descriptor >= 10 close-on-exec at every snapshot, no stray descriptor below 10, table after == before; the same commands with the 1st..4th process creation failing (injected EAGAIN); on the real system: here-documents whose content cannot be written (RLIMIT_FSIZE 0): descriptor list from /proc before == after. evaluations = scenario runs; distinct_nontrivial = distinct scenarios";
+pub const RULE: &str = "scenario = (command kind in {regular built-in, special built-in via eval, function, brace group, subshell, if, external, not found, empty command, exec, echo writing through fd 1, special built-in in a subshell}) x redirection list x noclobber; single redirections: 6 target descriptors (open, closed) x every operator x operands {existing, missing, directory, missing parent, open/closed descriptor, close, here-document}; all lists of length 1, every 7th (quick) / every list of length 2, random lists of length 3; fault enumeration: each single redirection x kind x every RLIMIT_NOFILE from 5 to 20 (every 9th in quick) + random lists under random limits. Compared with the fd-table model: table during the command (open-file-description identity, access mode, inode, internal descriptors >= 10 with close-on-exec), table after == before (exec: == modelled), no descriptor >= 10 left open, file contents and creation. Descriptors of the shell's own: 15 commands that make the shell open descriptors for itself (incl. dot scripts that end the shell by exit, expansion error or syntax error, observed from the EXIT trap) (dot scripts up to three levels deep, missing dot script, command substitutions, here-document, pipeline) x {no limit, every RLIMIT_NOFILE 5..24}, and the shell reading a script file (as operand, through `.`) with 0-7 of the descriptors 3-9 already open: every descriptor >= 10 close-on-exec at every snapshot, no stray descriptor below 10, table after == before; the same commands with the 1st..4th process creation failing (injected EAGAIN); on the real system: here-documents whose content cannot be written (RLIMIT_FSIZE 0): descriptor list from /proc before == after. evaluations = scenario runs; distinct_nontrivial = distinct scenarios";
